@@ -122,6 +122,49 @@ def r_class(c):
     raise ValueError('T1: class kind ' + k)
 
 
+# ---------------------------------------------------------------- encode-side tables (C02)
+ENC_OVERRIDES = ('to_primitive', 'to_shallow_primitive')
+
+
+def is_enc_opaque(c):
+    return c['kind'] in ('key', 'other') or (any(m in c['custom'] for m in ENC_OVERRIDES) and c['kind'] != 'cborenum')
+
+
+def r_field_enc(c, f):
+    """encode side: an init=False field is a constant only if nothing in __post_init__/__init__ can set it to another value;
+    otherwise it is COMPUTED by the constructor and the table keeps it as an ordinary positional field"""
+    if f['init']:
+        return r_field(f, HOOKS)
+    assigned = c.get('self_assign', {}).get(f['name'], [])
+    d = f['default']
+    # public init=False attributes (Redeemer.tag / .index) are set by callers after construction: computed
+    if f['name'].startswith('_') and d[0] == 'const' and isinstance(d[1], int) and not isinstance(d[1], bool) \
+            and all(a == d[1] for a in assigned):
+        return r_field(f, HOOKS)
+    g = dict(f); g['init'] = True
+    return r_field(g, HOOKS)
+
+
+def r_class_enc(c):
+    if is_enc_opaque(c):
+        return 'KOpaque "enc" None'
+    k = c['kind']
+    if k in ('cbytes', 'cborenum', 'dict'):
+        return r_class(dict(c, custom={}))
+    fs = c['fields']
+    if k == 'coded':
+        code = [f for f in fs if f['name'] == '_CODE']
+        if len(code) != 1 or code[0]['init'] or code[0]['default'][0] != 'const' or fs[0]['name'] != '_CODE' \
+                or any(a != code[0]['default'][1] for a in c.get('self_assign', {}).get('_CODE', [])):
+            raise ValueError(f'T1: coded class {c["name"]} without constant leading _CODE')
+        return f'KCoded {cz(code[0]["default"][1])} {clist([r_field_enc(c, f) for f in fs if f["name"] != "_CODE"])}'
+    if k == 'array':
+        return f'KArray {clist([r_field_enc(c, f) for f in fs])}'
+    if k == 'map':
+        return f'KMap {clist([r_field_enc(c, f) for f in fs])}'
+    raise ValueError('T1: class kind ' + k)
+
+
 def schema_v(sch):
     lines = ['(* GENERATED by tools/props/codecgen.py from the working tree of the repository. Do not edit. *)',
              'From Coq Require Import ZArith NArith String List.', 'From PyC Require Import Base Cbor Value Codec.',
@@ -141,6 +184,21 @@ def schema_v(sch):
                 fps.append((f'{name}.{m}', c['custom'][m]))
     lines.append('Definition fingerprints : list (string * string) := [')
     lines.append(';\n'.join(f'  ({cstr(k)}, {cstr(v)})' for k, v in fps))
+    lines.append('].')
+    lines.append('(* encode-side tables: a class is opaque here only if it overrides to_primitive / to_shallow_primitive *)')
+    lines.append('Definition enc_schema : Codec.schema := [')
+    enc_items = [f'  ({cstr(name)}, {r_class_enc(sch["classes"][name])})' for name in sorted(sch['classes'])]
+    # the dataclass tables of classes that override to_primitive / to_shallow_primitive: what super().to_primitive() walks
+    for name in sorted(sch['classes']):
+        c = sch['classes'][name]
+        if is_enc_opaque(c) and c['kind'] in ('array', 'map', 'coded') and 'fields' in c:
+            enc_items.append(f'  ({cstr(name + "!super")}, {r_class_enc(dict(c, custom={}))})')
+    lines.append(';\n'.join(enc_items))
+    lines.append('].')
+    lines.append('Definition enum_values : list (string * list (string * Z)) := [')
+    lines.append(';\n'.join(f'  ({cstr(e)}, {clist([cpair(cstr(k), cz(v)) for k, v in sorted(vals.items()) if isinstance(v, int)])})'
+                            for e, vals in sorted(list(sch['enums'].items()) +
+                                                  [(n, c['values']) for n, c in sch['classes'].items() if c['kind'] == 'cborenum'])))
     lines.append('].')
     lines.append('Definition union_tables : list (string * list string) := [')
     lines.append(';\n'.join(f'  ({cstr(k)}, {clist([cstr(x) for x in v])})' for k, v in sorted(sch['unions'].items())))
